@@ -109,8 +109,10 @@ CLAIMED = {
             "C04_completed_first / C04_sorted / C04_left_out / C04_length: for every trial multiset, direction and n the result is the n best COMPLETED trials in the objective's order with no "
             "non-completed trial ahead of a completed one; C04_ranking_symmetric: maximising s ranks exactly like minimising -s, ties included; C04_hyperband_symmetric: Hyperband's promotion "
             "issues the same trial under (flip direction, negate scores); C04_search_symmetric: for the generic lifecycle core two oracles whose score functions differ by the sign of the objective and whose populate_space cannot tell them apart answer EVERY request of ANY history identically (any number of tuners, retries, aborts, reloads), and C04_hyperband_search_symmetric instantiates it for Hyperband (the random and grid models carry no scores at all). Tie: get_best_trials of a real oracle vs the model on generated trial sets (tie order included); the same seeded history "
-            "run on all four real oracles with (max, s) and (min, -s) must issue identical trials and rankings (this is how the Bayesian clause is covered: observed, not proved).",
-            "Trusted: Coq kernel/vm_compute; python harness; Python sorted() stable; Bayesian symmetry is an observation on the implementation with the real GP.", "DESIGN.md section 6 C04"),
+            "run on all four real oracles with (max, s) and (min, -s) must issue identical trials and rankings. C04_bayes_populate_symmetric / C04_bayes_search_symmetric: the Bayesian oracle's glue (populate_space / _vectorize_trials: which trials enter the training set, order, sign, "
+            "estimates of ongoing trials by the model fitted last, end of the warm-up) modelled in BayesSym.v with value_to_prob / GP fit / predict / the seeded optimiser as uninterpreted functions of their inputs: the minimising oracle on negated scores hands the GP the training set of the maximising one, "
+            "so every request of every history is answered identically; BayesSym.vectorize is compared on every run with the real _vectorize_trials (stubbed GP) on states reached by worker-pool histories.",
+            "Trusted: Coq kernel/vm_compute; python harness; Python sorted() stable; numpy / scikit-learn / scipy are deterministic functions of their inputs and seeds (the Bayesian theorem is modulo that; the two-run monitor exercises it with the real GP).", "DESIGN.md section 6 C04"),
     "C01": ("Coq proof (invariant by induction over all operation sequences, for every populate_space) + differential correspondence of the lifecycle core with the four real oracles",
             "C01_lifecycle proves the invariant Inv (unique ids in start order; ongoing injective and RUNNING; ongoing / retry queue / end_order disjoint; every trial handed out, queued or ended; "
             "end_order only ended trials; COMPLETED has a non-NaN score; trial files agree) and C01_listed + C01_exactly_one that every ended trial is in end_order (exact three-way partition) in every reachable state for every history of create/update/end/reload, every "
